@@ -382,5 +382,15 @@ fn geometry_stream(r: &mut Rng, prop: &str, tier: u32, out: &mut Vec<String>) {
         out.push("ydec 1 8 1 1 0 BT709 BT1886 BT709 | n 4 4 0 0 0 0 | n 1 1 1 1 0 0 | n 1 1 1 1 0 0 | fill 1 255".into());
         out.push("yenc 1 8 1 1 0 BT709 BT709 3 3 5 0".into());
         out.push("yenc 2 10 1 0 1 BT709 BT709 5 2 5 0".into());
+        // D9: rows may overlap (a stride below the width, here 0), so the buffer length does not bound width * height;
+        // the product the decoder allocates must not wrap. (2 x 2^63 and 4 x 2^62 wrap, 3 x 2^62 does not; the small
+        // stride-0 frames are legal and decode row 0 repeatedly.) u8 storage only: no sample scan over 2^62 rows.
+        let d9 = |w: u64, h: u64, len: u64| format!("r 0 {} {} {} 0 0 0 0 0 0 {}", h, w, h, len);
+        for (w, h, dec) in [(2u64, 1u64 << 63, true), (4, 1 << 62, true), (1 << 32, 1 << 32, true), (3, 1 << 62, false), (2, 5, true), (4, 3, true)] {
+            let pl = d9(w, h, w.min(8));
+            let line = format!("1 8 0 0 0 BT709 BT1886 BT709 | {} | {} | {} | fill 7 255", pl, pl, pl);
+            out.push(format!("ynew {}", line));
+            if dec && prop == "C07" { out.push(format!("ydec {}", line)); }
+        }
     }
 }
